@@ -291,7 +291,8 @@ def r2(ctx, reach, bearing):
                     key = "%s::%s/%s" % (adt, visitor, v)
                     if hit is None and visitor == "defined_vars" and adt == RULE and v == "Matches":
                         # table exception with supporting fact
-                        sup = any(c.name == "get_local_util_vars" for f in prog.find_fns(r"check_var::get_vars_from_rules$") for c in f.calls)
+                        # whatever the collecting function is called: some function of check_var that the variable checks reach calls it
+                        sup = any(c.name == "get_local_util_vars" for f in prog.find_fns(r"^ast_grep_config::check_var::") for c in f.calls)
                         ctx.ob("R2", key, sup, "exception: util variables are added by get_local_util_vars in get_vars_from_rules (supporting call %s)" % ("present" if sup else "MISSING"), where=fn.loc())
                         continue
                     if hit is None and any(h in BY_NAME for h in payload_heads) and visitor == "verify_util":
@@ -557,7 +558,7 @@ def r4(ctx):
             walk(g, path + [f])
 
     walk(parse, [])
-    ctx.floor("R4", "template constructions under Fixer::parse", n, 3)
+    ctx.floor("R4", "template constructions under Fixer::parse", n, 2)  # one try_new and one with_transform at least (a shared helper de-duplicates them)
     # the names are produced from a HashMap in arbitrary order: the template scanner must treat them as a set
     from . import c13
     ok, msg = c13.GUARDS["transform_names_used_as_set"](ctx)
@@ -608,8 +609,8 @@ def r5(ctx):
     # check_var_in_fix compares template names with defined names: both plain ids (no sigil)
     cf = ctx.anchor("R5", r"^ast_grep_config::check_var::check_var_in_fix$")
     if cf:
-        uv = [c for c in cf.calls if c.name == "used_vars"]
-        ct = [c for c in cf.calls if c.name == "contains"]
+        uv = [c for g in prog.family(cf) for c in g.calls if c.name == "used_vars"]
+        ct = [c for g in prog.family(cf) for c in g.calls if c.name == "contains"]
         ctx.ob("R5", "check_var_in_fix compares used_vars() against the defined set", bool(uv) and bool(ct),
                "check_var_in_fix calls Fixer::used_vars and HashSet::contains", where=cf.loc())
 
